@@ -494,9 +494,12 @@ func canonCb(l [][2]string) [][2]string {
 // a Status error) stops a typed controller exactly as it stops the untyped one
 // next to it: Done() closes, Error() reports the cause — the same cause — and
 // what hangs below is shut down.  A deliberate Close reports no failure.
-func typedListFailure(c *Ctx, pkg typedPkg, kind fakeapi.ListKind, seed int64) {
+func typedListFailure(c *Ctx, pkg typedPkg, kind fakeapi.ListKind, seed int64, first bool) {
 	var problems []string
 	what := fmt.Sprintf("typed controller of package %s: list failure kind %d at the second list of each controller", pkg.name, kind)
+	if first {
+		what = fmt.Sprintf("typed controller of package %s: list failure kind %d at the FIRST list of each controller (nothing ever becomes ready)", pkg.name, kind)
+	}
 	c.Now(what)
 	dl := sched.Bubble(c.T, func() {
 		srv := fakeapi.New()
@@ -504,7 +507,7 @@ func typedListFailure(c *Ctx, pkg typedPkg, kind fakeapi.ListKind, seed int64) {
 		srv.Put(proto(pkg.kind, 1, 1, 0))
 		var nlists atomic.Int32
 		srv.ListBehave = func(n int) fakeapi.ListKind {
-			if nlists.Add(1) > 2 { // the first list of each of the two controllers succeeds
+			if nlists.Add(1) > 2 || first { // the first list of each of the two controllers succeeds
 				return kind
 			}
 			return fakeapi.ListOK
@@ -525,6 +528,17 @@ func typedListFailure(c *Ctx, pkg typedPkg, kind fakeapi.ListKind, seed int64) {
 			sched.Settle()
 		}()
 		ts, _ := tc.subscribe()
+		// a typed for-filter subscription that is never given a filter: it never
+		// becomes ready, and it ends like everything else
+		tff, _, _ := tc.subscribeFF()
+		if tff != nil {
+			defer func() {
+				if !isClosed(tff.done()) {
+					problems = append(problems, "a typed for-filter subscription that was never given a filter outlives its typed controller")
+				}
+				<-tff.end
+			}()
+		}
 		pert.Barrier()
 		// both relist after the default period (a minute); wait two
 		time.Sleep(150 * time.Second)
